@@ -311,7 +311,7 @@ def stream_framing(c, res):
 
     def span(t):
         # (start, end) linear forms of a (nested) range-indexed view of the input slice `data` (parameter 1); end None = to the end
-        t = peel(t)
+        t = peel(rules._strip_wrappers(t))
         if t == ('param', 1):
             return ({}, 0), None
         ic = index_call(t)
